@@ -753,7 +753,7 @@ def oracle_full(ns, text, expected, full):
 def run(ctx):
     thorough = ctx.tier == "thorough"
     rng = ctx.rng
-    ctx.regen("selconsts", "prefs", "quote")     # prefs/quote: constants of Out.append and helper.string used by the serialiser model
+    ctx.regen("selconsts")      # Gen/Prefs.v, Gen/Quote.v (used by the serialiser model) are regenerated by C05 / C03
     ctx.coq_build("props/C16.v")
     binary = ctx.ocaml_build("selector")
     cp = VERIF / "corpus" / "C16.json"
@@ -1193,7 +1193,7 @@ TRUSTED = [
 ]
 ASSUME = [
     "Print Assumptions for every theorem of props/C16.v: see coverage.print_assumptions",
-    "grammar side conditions (Declared): names are identifiers spelled without backslash escapes, ':not(' is spelled in "
-    "lower case, functional pseudo names other than not, layout tokens are S/COMMENT tokens, prefixes are declared",
+    "grammar side conditions (Declared): names are identifiers spelled without backslash escapes, functional pseudo names "
+    "other than not, layout tokens are S/COMMENT tokens, prefixes are declared; list theorem: sep_free per member",
     "the `element` attribute of Selector is not modelled",
 ]
